@@ -289,7 +289,7 @@ Outcome RunC19(RunCtx& ctx)
 	auto sequential = [&]
 	{
 		sim::steps_begin(UINT64_MAX);
-		for (uint32_t t = 0; t < T; ++t) { expected[t].clear(); for (auto& op : work[t].ops) { const uint64_t b4 = sim::steps_now(); expected[t].push_back(Execute(op, sh)); if (getenv("SIM_C19_DEBUG")) fprintf(stderr, "SEQ t%u %s/%s%s %llu\n", t, OpName(op.kind), ArchiveName(op.archive), op.stream ? "/stream" : "/mem", (unsigned long long)(sim::steps_now() - b4)); } }
+		for (uint32_t t = 0; t < T; ++t) { expected[t].clear(); for (auto& op : work[t].ops) expected[t].push_back(Execute(op, sh)); }
 		seqSteps = sim::steps_now();
 		sim::steps_end();
 	};
